@@ -15,6 +15,8 @@ func runC06(c *Ctx) int {
 		return strings.HasPrefix(kind, "write:") || strings.HasPrefix(kind, "fault:") || kind == "panic"
 	})
 	cov := agg.coverage("online monitor on the write hook: before every write to the data file its byte range is intersected with the page sets (tree, overflow and freelist pages, computed by the independent decoder D from the file at the moment each meta page write completes, under bbolt's own metalock) of the newest committed version and of every version an open read transaction views, and a meta write must go to the slot that does not hold the newest committed meta. Histories: all legal event sequences of the enumerated length over {begin/close reader, commit, rollback, commit with one injected I/O fault, reopen} plus seeded random sequences; both backends, freelist-sync on/off, 1 KiB/4 KiB pages. distinct_nontrivial = distinct (reader-age pattern, writer outcome) situations with at least one reader open.")
+	// the monitor sees I/O through the hooks only: cross-check the hook log against strace
+	c.hookCompleteness(c.Pick(4, 48), cov)
 	if agg.St.WritesChecked == 0 || agg.St.WritesWithOlder == 0 {
 		c.Inconclusive("no write was checked while an older reader was open")
 	}
